@@ -280,6 +280,70 @@ DIRECTED = [
 ]
 
 
+# identifiers that begin with a keyword (rem1, data2, to5, endx$ ...) are ordinary names wherever they stand
+KW_PREFIXES = ['rem', 'data', 'then', 'else', 'to', 'step', 'next', 'end', 'if', 'or', 'and', 'not', 'mod', 'print', 'dim', 'as', 'let',
+               'call', 'sub', 'goto', 'gosub', 'on', 'error', 'resume', 'input', 'using', 'for', 'while', 'wend', 'do', 'loop', 'until',
+               'case', 'select', 'is', 'exit', 'return', 'read', 'restore', 'const', 'type', 'shared', 'static', 'def', 'seg', 'cls',
+               'beep', 'fn', 'len', 'abs', 'int', 'val', 'timer', 'rnd', 'err', 'str', 'xor', 'eqv', 'imp', 'stop', 'system', 'swap',
+               'key', 'name', 'pos', 'loc', 'line', 'open', 'close', 'get', 'put', 'field', 'files', 'kill', 'view', 'width', 'screen',
+               'color', 'locate', 'sound', 'play', 'poke', 'peek', 'randomize', 'declare', 'function', 'integer', 'long', 'single',
+               'double', 'string', 'any', 'common', 'erase', 'redim', 'option', 'base', 'tab', 'spc']
+
+
+def kwident_program(k):
+    """One program per keyword: the name in every statement position, with what it must print."""
+    kw = KW_PREFIXES[k]
+    lines, exp = [], []
+    for suf in ('1', 'x', '1%', 'x$'):
+        nm = kw + suf
+        val, pv = ('"s"', 's') if nm.endswith('$') else ('5', 5)
+        lines += [f'{nm} = {val}', f'PRINT {nm}']
+        exp.append(pv)
+        lines += [f'LET {nm} = {val}', f'PRINT {nm}']
+        exp.append(pv)
+        lines += [f'zq = 1: {nm} = {val}: PRINT {nm}']
+        exp.append(pv)
+        lines += [f'IF zq = 1 THEN {nm} = {val} ELSE {nm} = {val}', f'PRINT {nm}']
+        exp.append(pv)
+        lines += [f'zlab{len(lines)}: {nm} = {val}', f'PRINT {nm}']
+        exp.append(pv)
+    lines += [f'FOR {kw}i = 1 TO 2', f'NEXT {kw}i', f'PRINT {kw}i']
+    exp.append(3)
+    lines += [f'{kw}s 4', 'END', f'SUB {kw}s ({kw}p)', f'PRINT {kw}p', 'END SUB']
+    exp.append(4)
+    return '\n'.join(lines) + '\n', exp
+
+
+def run_kwident(case):
+    st = {'unit_programs': 0, 'programs': 0, 'runs_compared': 0, 'events_compared': 0, 'typed_print_items': 0,
+          'error_outcomes_compared': 0, 'trap_lines_compared': 0, 'rejected': 0, 'ref_script_exhausted': 0, 'features': ['keyword-prefixed-names'],
+          'error_kinds': [], 'keyword_prefixed_names': 0}
+    viol = []
+    shapes = []
+    for k in range(case['lo'], case['hi']):
+        text, exp = kwident_program(k)
+        for cfg in [rt.CONFIGS6[k % 6], rt.CONFIGS6[(k + 3) % 6]]:
+            c = rt.compile_src(text, cfg[0], cfg[1])
+            cn = rt.cfg_name(cfg)
+            if c.status != 'ok':
+                viol.append(V(f'C01:valid-program-rejected:{c.status}:{c.sig or c.err_code}', f'{cn} names beginning with the keyword '
+                              f'{KW_PREFIXES[k].upper()}: {c.msg} (line {rt.line_of(text, c.loc)})', text=text))
+                st['rejected'] += 1
+                break
+            r = rt.run_module(rt.load_module(c.modbytes), {}, max_ticks=20000)
+            got = [e[1][0][2] for e in r.history if e[0] == 'print' and e[1]]
+            st['programs'] += 1
+            st['runs_compared'] += 1
+            st['events_compared'] += len(got)
+            st['typed_print_items'] += len(got)
+            st['keyword_prefixed_names'] += 4
+            shapes.append(f'kwident|{k}|{cn}')
+            if got != exp or r.outcome != ['halt']:
+                viol.append(V('C01:keyword-prefixed-name', f'{cn}: names beginning with {KW_PREFIXES[k].upper()}: printed {got}, the '
+                              f'source says {exp}; run ended {r.outcome}', text=text))
+    return {'viol': viol, 'stats': st, 'shape': shapes, 'nontrivial': True, 'sample': {'source': kwident_program(case['lo'])[0][:300]}}
+
+
 def run_directed(case):
     st = {'unit_programs': 0, 'programs': 0, 'runs_compared': 0, 'events_compared': 0, 'typed_print_items': 0,
           'error_outcomes_compared': 0, 'trap_lines_compared': 0, 'rejected': 0, 'ref_script_exhausted': 0, 'features': ['directed'],
@@ -376,6 +440,9 @@ def gen_cases(tier, seed):
     na = len(argform_programs())
     for lo in range(0, na, 6):
         cs.append({'argforms': True, 'lo': lo, 'hi': min(na, lo + 6), 'seed': seed, 'k': lo})
+    step = 12 if tier == 'quick' else 4
+    for lo in range(0, len(KW_PREFIXES), step):
+        cs.append({'kwident': True, 'lo': lo, 'hi': min(len(KW_PREFIXES), lo + step), 'k': lo})
     for i in range(n_prec_programs()):
         cs.append({'prec': i, 'seed': seed, 'k': i, 'nscripts': 1})
     nu = 120 if tier == 'quick' else 3000
@@ -430,6 +497,8 @@ def run_case(case):
     viol = []
     if case.get('argforms'):
         return run_argforms(case)
+    if case.get('kwident'):
+        return run_kwident(case)
     if case.get('directed'):
         return run_directed(case)
     if case.get('prec') is not None:
